@@ -111,7 +111,7 @@ pub fn split_into_deflate_streams(
             }
 
             Signature::ZipLocalFileHeader => {
-                if let Ok((header_size, res)) = parse_zip_stream(&src[index..]) {
+                if let Ok((header_size, res)) = parse_zip_stream(&src[index..], loglevel) {
                     if res.plain_text.len() > MIN_BLOCKSIZE {
                         locations_found.push(BlockChunk::Literal(index - prev_index + header_size));
 
@@ -300,7 +300,7 @@ impl ZipLocalFileHeader {
 }
 
 /// parses the zip stream and returns the size of the header, followed by the decompressed contents
-fn parse_zip_stream(contents: &[u8]) -> Result<(usize, DecompressResult)> {
+fn parse_zip_stream(contents: &[u8], loglevel: u32) -> Result<(usize, DecompressResult)> {
     let mut binary_reader = Cursor::new(&contents);
 
     // read the signature
@@ -326,7 +326,7 @@ fn parse_zip_stream(contents: &[u8]) -> Result<(usize, DecompressResult)> {
 
         // the extra field length may point past the end of the data
         if let Some(deflate_data) = contents.get(deflate_start_position..) {
-            if let Ok(res) = decompress_deflate_stream(deflate_data, true, 1) {
+            if let Ok(res) = decompress_deflate_stream(deflate_data, true, loglevel) {
                 return Ok((deflate_start_position, res));
             }
         }
